@@ -80,3 +80,8 @@ package markdown
 //@   invariant 0 <= #i && #i <= len(para.Runs) && unchangedHeap() && para != nil
 //@   invariant sbContent(result) == old(runsCat(w, para.Runs, #i))
 //@   decreases len(para.Runs) - #i
+
+//@ func (*MarkdownWriter).writeMetadata
+//@ props C20
+//@ requires w != nil
+//@ ensures sbContent(w.output) == old(sbContent(w.output)) + "---\n" + "title: \"Document\"\n" + "---\n\n"
